@@ -1,0 +1,32 @@
+//go:build verif
+
+// Contracts for the deductive verification in /verif (engine: govc).
+// This file is only compiled with the build tag "verif"; every line starting
+// with "//@" is a contract clause read by /verif/engine. It contains no
+// executable code used by the library.
+
+package shmipc
+
+// ---------------------------------------------------------------------------
+// C04 / C05: the IO queue (queue.go)
+// ---------------------------------------------------------------------------
+// Layout on amd64 (mappingQueueFromBytes): cap u32 @0 | head i64 @4 | tail i64 @12 | flag u32 @20 | ring @24
+//@ arith modDistinct(i int, j int, c int): bool = c > 0 && i != j && i - j < c && j - i < c ==> i % c != j % c
+//@ pure wfQueue(q *queue): bool = q.cap >= 0 && len(q.queueBytesOnMemory) == 12*q.cap
+//@ |   && preg(q.head) == region(q.queueBytesOnMemory) && preg(q.tail) == region(q.queueBytesOnMemory)
+//@ |   && preg(q.workingFlag) == region(q.queueBytesOnMemory) && region(q.queueBytesOnMemory) > 0
+//@ |   && poff(q.head) >= 0 && poff(q.tail) == poff(q.head) + 8 && poff(q.workingFlag) == poff(q.head) + 16
+//@ |   && off(q.queueBytesOnMemory) == poff(q.head) + 20
+//@ |   && 0 <= *q.head && *q.head <= *q.tail && *q.tail - *q.head <= q.cap
+//@ pure qelem(q *queue, i int, f int): int = mem32(q.queueBytesOnMemory, (i % q.cap)*12 + 4*f)
+
+//@ func (*queue).put
+//@   requires wfQueue(q)
+//@   requires *q.tail < 4611686018427387904   // the 64-bit logical index does not wrap (2^62 puts)
+//@   ensures  old(*q.tail - *q.head) >= q.cap ==> r0 == ErrQueueFull && *q.head == old(*q.head) && *q.tail == old(*q.tail)
+//@   ensures  old(*q.tail - *q.head) >= q.cap ==> unchanged(region(q.queueBytesOnMemory))
+//@   ensures  old(*q.tail - *q.head) <  q.cap ==> r0 == nil && *q.tail == old(*q.tail) + 1 && *q.head == old(*q.head)
+//@   ensures  r0 == nil ==> qelem(q, old(*q.tail), 0) == e.seqID && qelem(q, old(*q.tail), 1) == e.offsetInShmBuf && qelem(q, old(*q.tail), 2) == e.status
+//@   ensures  r0 == nil ==> forall i in [old(*q.head), old(*q.tail)): using(modDistinct(i, old(*q.tail), q.cap)) ==> qelem(q,i,0) == old(qelem(q,i,0)) && qelem(q,i,1) == old(qelem(q,i,1)) && qelem(q,i,2) == old(qelem(q,i,2))
+//@   ensures  wfQueue(q)
+//@   modifies *q.tail, q.queueBytesOnMemory[0:len(q.queueBytesOnMemory)]
